@@ -925,6 +925,39 @@ pub fn scenario_concurrent_moderators(ts_b: u64, ts_c: u64) -> ResolveCase {
     case_from(6, evs, &[&["$c", "$ja", "$jr", "$jb", "$jc", "$pb"], &["$c", "$ja", "$jr", "$jb", "$jc", "$pc"]])
 }
 
+/// One fork has a long history of its own: `n` users were invited and joined there only, so the
+/// auth-chain difference holds `n` invites next to the one event that matters ($p1, which gives
+/// Carol the level her later $p2 needs).  Any bound, cap or batch size applied to an unordered
+/// collection of that difference shows as runs disagreeing (seed3 C06-1).  Expected winner: $p2.
+pub fn scenario_long_fork(n: usize) -> ResolveCase {
+    let mut evs = vec![
+        mk("$c", "@alice:a", "m.room.create", "", r#"{"creator":"@alice:a","room_version":"6"}"#, 1, &[]),
+        mk("$ja", "@alice:a", "m.room.member", "@alice:a", JOIN, 2, &["$c"]),
+        mk("$ipl", "@alice:a", "m.room.power_levels", "", r#"{"users":{"@alice:a":100}}"#, 3, &["$c", "$ja"]),
+        mk("$jr", "@alice:a", "m.room.join_rules", "", r#"{"join_rule":"public"}"#, 4, &["$c", "$ja", "$ipl"]),
+        mk("$jc", "@carol:c", "m.room.member", "@carol:c", JOIN, 5, &["$c", "$ipl", "$jr"]),
+        mk("$p1", "@alice:a", "m.room.power_levels", "", r#"{"users":{"@alice:a":100,"@carol:c":50}}"#, 6, &["$c", "$ja", "$ipl"]),
+    ];
+    let mut a: Vec<String> = ["$c", "$ja", "$jr", "$jc", "$p2"].iter().map(|s| s.to_string()).collect();
+    for i in 0..n {
+        let (u, inv, j) = (format!("@u{i}:a"), format!("$inv{i}"), format!("$j{i}"));
+        evs.push(mk(&inv, "@alice:a", "m.room.member", &u, r#"{"membership":"invite"}"#, 10 + 2 * i as u64, &["$c", "$ja", "$p1"]));
+        evs.push(mk(&j, &u, "m.room.member", &u, JOIN, 11 + 2 * i as u64, &["$c", "$p1", "$jr", &inv]));
+        a.push(j);
+    }
+    evs.push(mk(
+        "$p2",
+        "@carol:c",
+        "m.room.power_levels",
+        "",
+        r#"{"users":{"@alice:a":100,"@carol:c":50},"invite":50}"#,
+        20 + 2 * n as u64,
+        &["$c", "$jc", "$p1"],
+    ));
+    let a_refs: Vec<&str> = a.iter().map(String::as_str).collect();
+    case_from(6, evs, &[&a_refs, &["$c", "$ja", "$jr", "$jc", "$ipl"]])
+}
+
 // ---------------------------------------------------------------------------------------------
 // streams
 // ---------------------------------------------------------------------------------------------
